@@ -110,6 +110,28 @@ let run_line (line : string) : string =
       (* raw filter bytes, raw event bytes *)
       let fb = p_b t in let eb = p_b t in
       Printf.sprintf "matchraw model=%s" (s_res s_bool (event_matches fb eb))
+  | "hll_add" ->
+      let p_el t = let i = p_b t in let o = p_n t in (i, o) in
+      let a = p_list p_el t in let b = p_list p_el t in
+      let errs = Buffer.create 16 in
+      let addall r l = List.fold_left (fun r (i, o) -> match add_element r i o with
+        | Ok r' -> Buffer.add_char errs 'o'; r' | _ -> Buffer.add_char errs 'e'; r) r l in
+      let ra = addall hll_new a in let rb = addall hll_new b in
+      let rab = addall (addall hll_new a) b in
+      Printf.sprintf "hll_add ra=%s rb=%s rab=%s mab=%s errs=%s hex=%s"
+        (hex_of_bytes ra) (hex_of_bytes rb) (hex_of_bytes rab) (hex_of_bytes (merge ra rb))
+        (Buffer.contents errs) (hex_of_bytes (to_hex rab))
+  | "hll_hex" ->
+      let s = p_b t in
+      (match from_hex s with
+       | Ok r -> Printf.sprintf "hll_hex imp=ok regs=%s export=%s zeros=%d" (hex_of_bytes r) (hex_of_bytes (to_hex r)) (int_of_n (zero_count r))
+       | r -> Printf.sprintf "hll_hex imp=%s" (s_res (fun _ -> "") r))
+  | "hex" ->
+      (* read_hex of arbitrary bytes for a 32/64-byte value, then write_hex *)
+      let n = p_n t in let s = p_b t in
+      (match read_hex s n with
+       | Ok r -> Printf.sprintf "hex r=ok %s w=%s" (hex_of_bytes r) (hex_of_bytes (write_hex r))
+       | r -> Printf.sprintf "hex r=%s" (s_res (fun _ -> "") r))
   | _ -> "RUNNER-ERROR unknown command " ^ cmd
 
 let () =
